@@ -1,3 +1,6 @@
 import LhasaV.Props.C15
 open LhasaV.Props.C15
-#print axioms next_after_eof
+#print axioms end_sticky
+#print axioms basic_end_sticky
+#print axioms no_dangling_header
+#print axioms headers_kind_independent
